@@ -263,7 +263,9 @@ Section FieldFacts.
             assert (Hgx1 : gx1 <> 0).
             { intro H0. apply E1. unfold y11. rewrite H0. ring. }
             assert (HX : X <> 0).
-            { unfold X. repeat apply nz_mul; assumption. }
+            { assert (H2 : gxd * gxd <> 0) by (apply nz_mul; exact Hgxd).
+              unfold X. apply nz_mul; [apply nz_mul; exact H2|].
+              apply nz_mul; [apply nz_mul; [exact H2|exact Hgxd]|exact Hgx1]. }
             pose proof (pow_c4_fermat X HX) as Hr. cbv zeta in Hr. fold w in Hr.
             set (r := w * w * X) in Hr.
             assert (Hy11 : y11 * y11 * gxd = r * gx1). { unfold y11, r, X. ring. }
